@@ -292,10 +292,67 @@ fn gen_per_element() -> BoxedStrategy<Value> {
     per_element_cases(rules::rooted(cfg), c12_data())
 }
 
+
+const KINDS: u64 = 4;
+fn check_sizes(case: &Value, obs: &mut Obs) -> Result<(), String> {
+    let n = case["n"].as_u64().unwrap_or(1) as usize;
+    let k = case["k"].as_u64().unwrap_or(0);
+    let keys: Vec<Value> = (0..n).map(|i| json!(format!("k{}", i))).collect();
+    let data = json!({format!("k{}", n - 1): 1});
+    let (rule, data) = match k {
+        0 => (json!({"missing": keys}), data),
+        // a computed key list.  The implementation clones the whole data document at every lookup, so n lookups
+        // against a document that itself holds the n keys cost n^2 (65535 keys: minutes) - slow, not a hang, and not
+        // what this case is about: the big list comes from a literal through merge, from the data only up to 257 keys
+        1 if n > 300 => (json!({"missing": [{"merge": [keys]}]}), data),
+        1 => (json!({"missing": [{"var": "ks"}]}), json!({format!("k{}", n - 1): 1, "ks": keys})),
+        // missing_some removes duplicates with a linear search (n absent keys: n^2 comparisons) and every lookup clones
+        // the document (n present keys need an n-key document: n^2 again) - slow, not wrong, and not what these cases
+        // are about: the 2^16 sizes use a list of null keys (ignored) with one present and one absent key at the end
+        2 if n > 5000 => {
+            let mut ks: Vec<Value> = vec![Value::Null; n - 2];
+            ks.push(json!("absent"));
+            ks.push(json!("p"));
+            (json!({"missing_some": [1, ks]}), json!({"p": 1}))
+        }
+        2 => (json!({"missing_some": [1, keys]}), data),
+        _ if n > 5000 => {
+            let mut ks: Vec<Value> = vec![Value::Null; n - 2];
+            ks.push(json!("p"));
+            ks.push(json!("absent"));
+            (json!({"missing_some": [1, {"merge": [ks]}]}), json!({"p": 1}))
+        }
+        _ => (json!({"missing_some": [2, keys]}), data),
+    };
+    size_case(&rule, &data, obs, &format!("size kind {} n {}", k, if n < 1000 { "~2^8" } else if n < 10000 { "~2^12" } else { "~2^16" }))
+}
+
+fn fixed_sizes() -> Vec<Value> {
+    let mut out = vec![];
+    for n in SIZE_EDGES {
+        for k in 0..KINDS {
+            out.push(json!({"n": n, "k": k}));
+        }
+    }
+    out
+}
+
 pub fn property() -> Property {
     Property {
         id: "C12",
         subs: vec![
+            Sub {
+                name: "size_boundaries",
+                about: "key lists of exactly 255 ... 65537 keys of which only the last is present: missing (literal list and computed list) must return all the others in order, missing_some with threshold 1 the empty list and with threshold 2 all the others, against the reference model.",
+                nontrivial: "every case.",
+                strategy: None,
+                fixed: Some(fixed_sizes),
+                fixed_exhaustive: true,
+                check: check_sizes,
+                quick: 0,
+                thorough: 0,
+                small_stack: false,
+            },
             Sub {
                 name: "fuzz_corpus_replay",
                 about: "every committed corpus input and saved artifact of the libFuzzer target fz_missing - one application of missing / missing_some (data document, keys) whose operands are written by the fuzzer as text lines (a line that parses as JSON is that value, any other line is a raw string such as ` 0x1F ` or `12px`; operands literal or through var) - replayed through the target's own body against the reference model; the committed corpus is the coverage-distinct set distilled from campaigns on the unchanged tree, so each input reaches a different piece of the implementation. The thorough tier additionally runs the coverage-guided campaign.",
